@@ -76,6 +76,13 @@ func genSupCase(r *simkit.Rand, tier string, intensityStudy bool) *SupCase {
 		case intensityStudy:
 			ev.Kind = "exit"
 			ev.Reason = simkit.Pick(r, "error", "kill", "panic")
+			if r.Chance(0.3) {
+				// terminations that need no restart under Transient must not use up the allowance
+				ev.Reason = simkit.Pick(r, "normal", "shutdown")
+			}
+			if c.Type == "sofo" && r.Chance(0.3) {
+				ev.Kind = "sofostart" // keep instances coming: the ones that end normally are not replaced
+			}
 			// bursts, bursts separated by about a period, slow drips
 			per := c.Period * 1000
 			ev.GapMs = simkit.Pick(r, 1, 3, 17, per/c.Intensity-7, per/c.Intensity+13, per/2+3, per-11, per+19, 2*per+7)
